@@ -706,4 +706,219 @@ theorem linkAt_linksAt (first stride width : Nat) (ts : List Nat) (hs : 0 < stri
   exact linkAt_cons_same _ _ _ _
 
 
+
+/-! ## BaseGlyphList and LayerList -/
+
+theorem flatMap_const_length {α} (xs : List α) (f : α → List Nat) (n : Nat) (h : ∀ x ∈ xs, (f x).length = n) :
+    (xs.flatMap f).length = n * xs.length := by
+  induction xs with
+  | nil => simp
+  | cons x xs ih =>
+    rw [List.flatMap_cons, List.length_append, h x (by simp), ih (fun y hy => h y (by simp [hy]))]
+    simp [Nat.mul_succ]; omega
+
+/-- the retained BaseGlyphPaint records -/
+def keptRecs (p : PlanIn) (recs : List (Nat × Nat)) : List (Nat × Nat) :=
+  recs.filter fun r => p.colred.contains r.1
+
+theorem baseListObj_spec (b : Array Nat) (p : PlanIn) (off : Nat) (recs : List (Nat × Nat))
+    (pk : List Obj) (o : Obj) (pk1 : List Obj)
+    (h : baseListObj b p off recs pk = .ok (o, pk1)) (wf : WF pk) :
+    WF pk1 ∧ Ext pk pk1 ∧ ObjOk o pk1.length ∧
+    o.bytes = beBytes 4 ((keptRecs p recs).length % 4294967296) ++
+      (keptRecs p recs).flatMap (fun r => beBytes 2 ((p.glyphMap.lookup r.1).getD 0) ++ [0, 0, 0, 0]) ∧
+    ∀ k (hk : k < (keptRecs p recs).length),
+      (p.glyphMap.lookup (keptRecs p recs)[k].1).isSome ∧
+      ∃ i, linkAt o.links (6 + k * 6) = some i ∧
+        PaintAt p b (paintFuel b) (off + (keptRecs p recs)[k].2) i pk1 := by
+  unfold baseListObj at h
+  simp only [] at h
+  obtain ⟨⟨ts, pk'⟩, heach, h⟩ := bind_ok h
+  simp only [pure, Except.pure] at h
+  cases h
+  obtain ⟨wf1, e1, hlen, hall⟩ := packEach_spec (bglBuild b p off)
+    (fun (r : Nat × Nat) i pk => (p.glyphMap.lookup r.1).isSome ∧ PaintAt p b (paintFuel b) (off + r.2) i pk)
+    (by
+      intro r i pk0 pk0' ⟨h1, h2⟩ e w
+      exact ⟨h1, h2.mono e w⟩)
+    (keptRecs p recs) pk ts pk1
+    (by
+      intro r _ pk0 o0 pk01 hb wf0
+      unfold bglBuild at hb
+      split at hb
+      · cases hb
+      rename_i ng hng
+      split at hb
+      · cases hb
+      split at hb
+      · cases hb
+      obtain ⟨w1, e1, ok1, hP⟩ := subsetPaint_spec p b _ _ pk0 o0 pk01 hb wf0
+      exact ⟨w1, e1, ok1, fun pk2 i e2 w2 hg => ⟨by rw [hng]; rfl, hP pk2 i e2 w2 hg⟩⟩)
+    heach wf
+  have hbytes : (beBytes 4 ((keptRecs p recs).length % 4294967296) ++
+      (keptRecs p recs).flatMap (fun (r : Nat × Nat) => beBytes 2 ((p.glyphMap.lookup r.1).getD 0) ++ [0, 0, 0, 0])).length =
+      4 + 6 * (keptRecs p recs).length := by
+    rw [List.length_append, beBytes_length, flatMap_const_length _ _ 6 (by intro x _; simp [beBytes_length])]
+  refine ⟨wf1, e1, ⟨?_, ?_, sorted_linksAt 6 6 4 ts (by omega)⟩, rfl, ?_⟩
+  · intro l hl
+    obtain ⟨k, hk, e⟩ := mem_linksAt hl
+    subst e
+    exact (hall k (by omega) hk).1
+  · intro l hl
+    obtain ⟨k, hk, e⟩ := mem_linksAt hl
+    subst e
+    show 6 + k * 6 + 4 ≤ _
+    unfold keptRecs at hbytes
+    rw [hbytes]
+    unfold keptRecs at hlen
+    omega
+  · intro k hk
+    obtain ⟨_, h1, h2⟩ := hall k hk (by omega)
+    exact ⟨h1, ts[k]'(by omega), linkAt_linksAt 6 6 4 ts (by omega) k (by omega), h2⟩
+
+/-- the retained layer indices -/
+def keptLayers (p : PlanIn) (numLayers : Nat) : List Nat :=
+  (List.range numLayers).filter fun i => (p.layers.lookup i).isSome
+
+theorem layerListObj_spec (b : Array Nat) (p : PlanIn) (off numLayers : Nat)
+    (pk : List Obj) (o : Obj) (pk1 : List Obj)
+    (h : layerListObj b p off numLayers pk = .ok (some (o, pk1))) (wf : WF pk) :
+    WF pk1 ∧ Ext pk pk1 ∧ ObjOk o pk1.length ∧
+    o.bytes = beBytes 4 (p.layers.length % 4294967296) ++ List.replicate (4 * (keptLayers p numLayers).length) 0 ∧
+    ∀ k (hk : k < (keptLayers p numLayers).length),
+      ∃ c i, resolveOff b 4 off (4 + 4 * (keptLayers p numLayers)[k]) = some c ∧ paintOk b c = true ∧
+        linkAt o.links (4 + k * 4) = some i ∧ PaintAt p b (paintFuel b) c i pk1 := by
+  unfold layerListObj at h
+  split at h
+  · simp only [pure, Except.pure] at h; cases h
+  simp only [] at h
+  obtain ⟨⟨ts, pk'⟩, heach, h⟩ := bind_ok h
+  simp only [pure, Except.pure] at h
+  cases h
+  obtain ⟨wf1, e1, hlen, hall⟩ := packEach_spec (layerBuild b p off)
+    (fun idx i pk => ∃ c, resolveOff b 4 off (4 + 4 * idx) = some c ∧ paintOk b c = true ∧
+      PaintAt p b (paintFuel b) c i pk)
+    (by
+      intro r i pk0 pk0' ⟨c, h1, h2, h3⟩ e w
+      exact ⟨c, h1, h2, h3.mono e w⟩)
+    (keptLayers p numLayers) pk ts pk1
+    (by
+      intro idx _ pk0 o0 pk01 hb wf0
+      unfold layerBuild at hb
+      split at hb
+      · cases hb
+      rename_i c hc
+      split at hb
+      · cases hb
+      rename_i hpo
+      obtain ⟨w1, e1, ok1, hP⟩ := subsetPaint_spec p b _ _ pk0 o0 pk01 hb wf0
+      exact ⟨w1, e1, ok1, fun pk2 i e2 w2 hg => ⟨c, hc, by simpa using hpo, hP pk2 i e2 w2 hg⟩⟩)
+    heach wf
+  refine ⟨wf1, e1, ⟨?_, ?_, sorted_linksAt 4 4 4 ts (by omega)⟩, rfl, ?_⟩
+  · intro l hl
+    obtain ⟨k, hk, e⟩ := mem_linksAt hl
+    subst e
+    exact (hall k (by omega) hk).1
+  · intro l hl
+    obtain ⟨k, hk, e⟩ := mem_linksAt hl
+    subst e
+    show 4 + k * 4 + 4 ≤ _
+    simp only [List.length_append, beBytes_length, List.length_replicate]
+    unfold keptLayers at hlen
+    omega
+  · intro k hk
+    obtain ⟨_, c, h1, h2, h3⟩ := hall k hk (by omega)
+    exact ⟨c, ts[k]'(by omega), h1, h2, linkAt_linksAt 4 4 4 ts (by omega) k (by omega), h3⟩
+
+
+
+/-! ## the tables around the paint graph -/
+
+theorem PaintAt.mono' {p : PlanIn} {b : Array Nat} {fuel c i : Nat} {pk pk' : List Obj}
+    (h : PaintAt p b fuel c i pk) (e : Ext pk pk') (wf : WF pk) : PaintAt p b fuel c i pk' :=
+  ⟨Nat.lt_of_lt_of_le h.1 e.length_le, by rw [objTree_ext e wf fuel i h.1]; exact h.2⟩
+
+theorem packChild_ext (pk : List Obj) (o : Obj) (i : Nat) (pk' : List Obj)
+    (h : packChild pk o = .ok (i, pk')) : Ext pk pk' ∧ pk'[i]? = some o := by
+  unfold packChild at h
+  rcases popPack_spec pk o with ⟨_, hp⟩ | ⟨_, j, hj, hget, hp⟩ | ⟨_, hp⟩
+  · rw [hp] at h; cases h
+  · rw [hp] at h; simp only [pure, Except.pure] at h; cases h; exact ⟨Ext.refl _, hget⟩
+  · rw [hp] at h; simp only [pure, Except.pure] at h; cases h; exact ⟨⟨[o], rfl⟩, by simp⟩
+
+theorem packEach_ext {α : Type} (build : α → List Obj → R (Obj × List Obj))
+    (hb : ∀ a pk o pk1, build a pk = .ok (o, pk1) → Ext pk pk1) :
+    ∀ (as : List α) (pk : List Obj) (ts : List Nat) (pk' : List Obj),
+      packEach build as pk = .ok (ts, pk') → Ext pk pk'
+  | [], pk, ts, pk', h => by
+    simp only [packEach, pure, Except.pure] at h; cases h; exact Ext.refl _
+  | a :: as, pk, ts, pk', h => by
+    simp only [packEach] at h
+    obtain ⟨⟨o, pk1⟩, hbuild, h⟩ := bind_ok h
+    obtain ⟨⟨i, pk2⟩, hpack, h⟩ := bind_ok h
+    obtain ⟨⟨ts', pk3⟩, hrest, h⟩ := bind_ok h
+    simp only [pure, Except.pure] at h
+    cases h
+    exact (hb a pk o pk1 hbuild).trans ((packChild_ext _ _ _ _ hpack).1.trans
+      (packEach_ext build hb as pk2 ts' pk' hrest))
+
+theorem WF_of_leaves (pk : List Obj) (h : ∀ o ∈ pk, o.links = []) : WF pk := by
+  intro k hk
+  have := h pk[k] (List.getElem_mem hk)
+  rw [this]
+  exact ⟨by simp, by intro l hl; simp at hl, List.Pairwise.nil⟩
+
+theorem packChild_leaves (pk : List Obj) (bytes : List Nat) (i : Nat) (pk' : List Obj)
+    (h : packChild pk ⟨bytes, []⟩ = .ok (i, pk')) (hl : ∀ o ∈ pk, o.links = []) :
+    ∀ o ∈ pk', o.links = [] := by
+  unfold packChild at h
+  rcases popPack_spec pk ⟨bytes, []⟩ with ⟨_, hp⟩ | ⟨_, j, hj, hget, hp⟩ | ⟨_, hp⟩
+  · rw [hp] at h; cases h
+  · rw [hp] at h; simp only [pure, Except.pure] at h; cases h; exact hl
+  · rw [hp] at h; simp only [pure, Except.pure] at h; cases h
+    intro o ho
+    simp only [List.mem_append, List.mem_singleton] at ho
+    rcases ho with ho | ho
+    · exact hl o ho
+    · subst ho; rfl
+
+/-- `serialize_v0` packs leaves only; its links sit at 4 and 8 -/
+theorem serializeV0_spec (b : Array Nat) (h : Header) (p : PlanIn) (toV0 : Bool)
+    (hdr : List Nat) (links : List Link) (pk : List Obj)
+    (hok : serializeV0 b h p toV0 = .ok (hdr, links, pk)) :
+    (∀ o ∈ pk, o.links = []) ∧ (∀ l ∈ links, l.pos = 4 ∨ l.pos = 8) := by
+  unfold serializeV0 at hok
+  generalize hH : (if toV0 = true then 14 else 34) = H at hok
+  split at hok
+  · cases hok
+  try simp only [] at hok
+  split at hok
+  · simp only [pure, Except.pure] at hok; cases hok; simp
+  split at hok
+  · cases hok
+  rename_i recs hrecs
+  try simp only [] at hok
+  split at hok
+  · split at hok
+    · cases hok
+    · simp only [pure, Except.pure] at hok; cases hok; simp
+  obtain ⟨⟨rs, total⟩, hgo, hok⟩ := bind_ok hok
+  obtain ⟨⟨i, pk1⟩, hp1, hok⟩ := bind_ok hok
+  simp only [] at hok hp1
+  have hl1 := packChild_leaves [] _ i pk1 hp1 (by simp)
+  split at hok
+  · simp only [pure, Except.pure] at hok; cases hok
+    exact ⟨hl1, by simp⟩
+  split at hok
+  · cases hok
+  split at hok
+  · cases hok
+  rename_i layers hlayers
+  obtain ⟨lb, hlg, hok⟩ := bind_ok hok
+  obtain ⟨⟨j, pk2⟩, hp2, hok⟩ := bind_ok hok
+  simp only [pure, Except.pure] at hok
+  cases hok
+  exact ⟨packChild_leaves _ _ j _ hp2 hl1, by simp⟩
+
+
 end FontVerif.SubsetColr
